@@ -360,6 +360,17 @@ fn install_handlers() {
     }
 }
 
+// glibc's allocator gives freed memory back to the kernel eagerly (madvise / brk) and takes page
+// faults to get it again; with 16 workers inside a VM those faults contend badly. Keep it.
+fn tune_allocator() {
+    unsafe {
+        libc::mallopt(libc::M_ARENA_MAX, 1);
+        libc::mallopt(libc::M_TRIM_THRESHOLD, 1 << 30);
+        libc::mallopt(libc::M_TOP_PAD, 64 << 20);
+        libc::mallopt(libc::M_MMAP_THRESHOLD, 1 << 30);
+    }
+}
+
 fn set_memory_limit(gib: u64) {
     unsafe {
         let lim = libc::rlimit { rlim_cur: gib << 30, rlim_max: gib << 30 };
@@ -388,6 +399,7 @@ pub struct WorkerArgs {
 
 fn worker(args: WorkerArgs) {
     IS_WORKER.store(1, Ordering::Relaxed);
+    tune_allocator();
     let prop = crate::props::get(&args.prop);
     set_memory_limit(if prop.stack_mb() > 64 { 24 } else { 8 });
     // Silence the default panic hook: panics of the subject are caught and reported by the checks.
